@@ -421,3 +421,29 @@ CHECKS['C19'] = dict(
     guards=dict(classes=['tree:with-factor', 'mul:intervalxinterval:overlaps', 'common:intervalxinterval:overlaps', 'solved:default:whole', 'valid:functions:interior-repeat', 'Grid:invalid']),
     assumptions=['scalar types satisfying the documented requirements behave like the archetype as far as overload resolution is concerned'],
 )
+
+
+def c20_units(tier):
+    import os
+    from driver import REPO
+    ex = os.path.join(REPO, 'examples')
+    srcs = ['checks/c20_examples.cpp'] + [os.path.join(ex, f) for f in ('diffusion.cpp', 'spline-potential.cpp', 'harmonic-oscillator.cpp', 'hydrogen.cpp')]
+    F = ['-I', ex, '-DBSPLINE_INTERPOLATION_USE_EIGEN', '-DBSPLINE_ADD_TEST_CHECKS']
+    return [unit('san', srcs, 'san', flags=F, group='same-inputs'), unit('release', srcs, 'raw', flags=F + ['-O2'], group='same-inputs')]
+
+
+CHECKS['C20'] = dict(
+    title='The shipped example solvers are well-defined programs and solve their problems',
+    level='exploration',
+    engine='E1 input enumerator on the real examples under sanitizers',
+    technique='bounded enumeration of admissible inputs of the real example translation units (examples/*.cpp compiled unmodified) built with AddressSanitizer, UndefinedBehaviorSanitizer, libstdc++ debug mode and Eigen assertions; oracle = no report/assertion/signal plus the physical invariants the statement lists, within 1e-8',
+    level_text='Diffusion: grids of 2,3,4,6,9 points (uniform and warped), every piecewise-constant coefficient over {1/3,1,2} for n<=4 and patterned ones above, three boundary-value pairs: both end values attained, invariance under scaling D by 1/4, 3, 1/3 at 17 probe points, straight line for constant D; sub-window coefficients refused or solved. Spline potential: grids of 11..22, 41 (and 5) points x potentials {0, x^2/2, cosh-1} x three construction routes: eigenvalue count = min(10, basis size), ascending, shifted by c for c in {1,-5/2}. Harmonic oscillator and hydrogen: n+1/2 and -1/n^2 within the test-suite tolerances. Everything also in a plain -O2 build.',
+    level_note='Numerical oracles are tolerance-based (1e-8 relative; observed deviations are below 1e-13) and the input families are small. Interior values of the diffusion solution for discontinuous coefficients are not compared with the exact piecewise-linear solution (the C^9 basis cannot represent the kink; DESIGN.md 5). Trusted: sanitizer runtimes, Eigen 3.4.',
+    units=c20_units,
+    deadline=dict(quick=900, thorough=2700),
+    rule='cases = one input of one example solver (each case runs the solver 1-4 times). Non-trivial = the solver returned a result that was compared.',
+    bounds=dict(quick='see level_text', thorough='adds grids of 5 and 13 points for diffusion (exhaustive coefficients up to n=5) and potentials on 31 and 61 points'),
+    guards=dict(classes=['diffusion:constant-D', 'diffusion:varying-D', 'potential:small-basis:interpolated', 'potential:full-basis:handbuilt', 'potential:full-basis:handbuilt-subwindow',
+                         'potential:too-few-points', 'harmonic-oscillator', 'hydrogen']),
+    assumptions=['admissible inputs = positive piecewise-constant diffusion coefficients on a whole grid, cubic potentials on a grid, finite boundary values'],
+)
